@@ -123,7 +123,16 @@ def seeds_for(pred, r, nrand):
             "_If", "__IF", "class", "Class", "None", "none", "True", "print", "len", "self", "cls", "match", "case", "type",
             "namespace", "template", "and", "and_eq", "NULL", "nullptr", "bool", "true", "asm", "_Bool", "_Alignas",
             "restrict", "defined", "__FILE__", "__cplusplus", "__func__", "errno", "EOF", "stdin", "main", "std", "uint8_t"]
-    cats = ["abcxyz", "ABCXYZE", "0123456789", "___", "  \t", "-.+*/\\'\"<>&;", "éüñµ", "漢字́‍", "\U0001F600\U00010000"]
+    # identifier-adjacent Unicode: "word" characters that are not identifier characters (superscripts, circled and other numerics),
+    # compatibility letters that NFKC-normalise to ASCII (fullwidth, ligatures, long s, mathematical bold: CPython normalises
+    # identifiers, so these can spell keywords and builtins), continue-only characters (middle dot, combining marks, other digits)
+    out += ["a\u00b2", "x\u2460", "\u00b2", "a\u00bd", "\uff49\uff46", "\ufb01nally", "clas\u017f", "pa\u017f\u017f", "\U0001d422\U0001d41f",
+            "\u017ftr", "\uff50rint", "\uff24ef", "de\uff46", "a\u00b7b", "\u00b7a", "a\u0301", "\u0301a", "\u0661a", "a\u0661", "\u2118", "\u212e",
+            "\u2160", "\u2170f", "N\uff4fne", "\uff34rue", "\u1e9e", "\u00aa", "\u00aab", "x\u200c", "x\u200dy", "\ufe33", "a\ufe33b", "\uff3f", "a\uff3f"]
+    for w in ("if", "in", "is", "as", "or", "def", "for", "class", "pass", "str", "int", "len", "None", "True"):
+        out += [w[:-1] + chr(0xff00 + ord(w[-1]) - 0x20), chr(0xff00 + ord(w[0]) - 0x20) + w[1:]]
+    cats = ["abcxyz", "ABCXYZE", "0123456789", "___", "  \t", "-.+*/\\'\"<>&;", "éüñµ", "漢字́‍", "\U0001F600\U00010000",
+            "\u00b2\u00b3\u00b9\u2460\u00bd\u0661", "\uff49\uff46\ufb01\u017f\U0001d422\uff3f", "\u00b7\u0301\u200c\ufe33"]
     for _ in range(nrand):
         n = r.choice([1, 2, 3, 5, 8, 13, 21, 40, 64])
         s = "".join(r.choice(r.choice(cats)) for _ in range(n))
